@@ -296,6 +296,19 @@ def translate_dx(path, cls, detfn, kw):
     return (f'Definition {name} {{R : Type}} (O : ops R) (absf : R -> R) (det : nat -> nat -> R) (W : nat -> R) (e q : nat) : R := {term}.')
 
 
+def _none_test(n):
+    """``a is not None`` / ``a is None`` / conjunctions -> Gallina bool over option variables"""
+    if isinstance(n, ast.BoolOp) and isinstance(n.op, ast.And):
+        return '(' + ' && '.join(_none_test(v) for v in n.values) + ')'
+    if (isinstance(n, ast.Compare) and len(n.ops) == 1 and isinstance(n.left, ast.Name) and n.left.id in ('quadrature', 'intorder')
+            and isinstance(n.comparators[0], ast.Constant) and n.comparators[0].value is None):
+        if isinstance(n.ops[0], ast.IsNot):
+            return f'(is_some {n.left.id})'
+        if isinstance(n.ops[0], ast.Is):
+            return f'(negb (is_some {n.left.id}))'
+    raise TranslateError('test of the quadrature/intorder branch: ' + t2.src(n))
+
+
 def translate_intorder():
     tree = t2.parse(ABSTRACT)
     f = t2.find_def(tree, '__init__', 'AbstractBasis')
@@ -307,13 +320,24 @@ def translate_intorder():
     if not (isinstance(e, ast.IfExp) and t2.src(e.test) == 'intorder is not None' and t2.src(e.body) == 'intorder'):
         raise TranslateError('order expression: ' + t2.src(e))
     term = t2.Expr({'self.elem.maxdeg': 'maxdeg'}, 'nat').tr(e.orelse)
+    # which rule the basis uses: ``if <test>: self.X, self.W = quadrature  else: self.X, self.W = get_quadrature(refdom, <order>)``
+    ifs = [s for s in f.body if isinstance(s, ast.If) and any(t2.src(x) == 'self.X, self.W = quadrature' for x in s.body)]
+    br = t2.only(ifs, 'AbstractBasis: branch on quadrature')
+    if len(br.body) != 1 or len(br.orelse) != 1 or t2.src(br.orelse[0]) != 'self.X, self.W = ' + t2.src(c):
+        raise TranslateError('AbstractBasis: shape of the quadrature branch: ' + t2.src(br)[:200])
+    test = _none_test(br.test)
     return ('Definition gen_intorder (intorder : option nat) (maxdeg : nat) : nat :=\n'
-            f'  match intorder with Some k => k | None => {term} end.')
+            f'  match intorder with Some k => k | None => {term} end.\n'
+            'Definition is_some {A : Type} (o : option A) : bool := match o with Some _ => true | None => false end.\n'
+            '(* the rule a basis integrates with: the given one, else get_quadrature(refdom, order) *)\n'
+            'Definition gen_rule_choice {A : Type} (quadrature : option A) (intorder : option nat) (maxdeg : nat) (table : nat -> A) : A :=\n'
+            f'  if {test} then match quadrature with Some r => r | None => table (gen_intorder intorder maxdeg) end\n'
+            '  else table (gen_intorder intorder maxdeg).')
 
 
 def translate_all():
     lines = ['(* GENERATED by vlib/c02_t2.py from skfem/mapping/mapping_affine.py, assembly/basis/{cell,facet,abstract}_basis.py — do not edit *)',
-             'From Coq Require Import Arith.', 'Require Import Base.C02_Ops.']
+             'From Coq Require Import Arith Bool.', 'Require Import Base.C02_Ops.']
     lines += translate_mapping()
     lines += translate_isoparametric()
     lines.append(translate_dx(CELL, 'CellBasis', 'detDF', 'tind'))
